@@ -116,6 +116,171 @@ def c06_worker(args):
     return rep.to_dict()
 
 
+def c15_worker(args):
+    """C15 through the Python binding: decode_flarm (one packet per call) and decode_flarm_vec (rayon-parallel chunks) on
+    packets built by the independent packer + XXTEA encryptor of `rsmon gen15`, judged against their ground truth"""
+    shard, nshards, tier, seed, rsmon, so_path = args
+    rep = Rep("C15")
+    try:
+        mod = load_binding(so_path)
+        p = subprocess.run([rsmon, "gen15", "--tier", tier, "--seed", str(seed), "--shard", str(shard), "--nshards", str(nshards)],
+                           stdout=subprocess.PIPE, stderr=subprocess.PIPE, timeout=3600)
+        if p.returncode != 0:
+            raise Inconclusive("rsmon gen15 failed: " + p.stderr.decode(errors="replace")[-500:])
+        cases = [json.loads(l) for l in p.stdout.splitlines() if l.strip()]
+        rng = random.Random((seed << 8) ^ shard ^ 0xF1A5)
+        step = 128e-7
+
+        def judge(c, out, how):
+            bad = []
+            if out is None:
+                return ["well-formed packet rejected"]
+            if out.get("icao24") != c["addr"]:
+                bad.append(f"address {out.get('icao24')!r} != {c['addr']}")
+            if out.get("actype") != c["type"]:
+                bad.append(f"type {out.get('actype')!r} != {c['type']}")
+            if out.get("stealth") is not c["stealth"]:
+                bad.append("stealth flag")
+            if out.get("no_track") is not c["no_track"]:
+                bad.append("no-track flag")
+            if out.get("geoaltitude") != c["alt"]:
+                bad.append(f"altitude {out.get('geoaltitude')} != {c['alt']}")
+            la, lo = out.get("latitude"), out.get("longitude")
+            if not isinstance(la, float) or not abs(la - c["lat"]) <= step:
+                bad.append(f"latitude {la} vs {c['lat']}")
+            d = None if not isinstance(lo, float) else abs((lo - c["lon"] + 540.0) % 360.0 - 180.0)
+            if d is None or not d <= step:
+                bad.append(f"longitude {lo} vs {c['lon']}")
+            return bad
+        singles = []
+        for c in cases:
+            rep.evaluations += 1
+            replay = {"mode": "pybinding15", "case": c}
+            try:
+                out = pickle.loads(bytes(mod.decode_flarm(c["packet"], c["ts"], c["ref"][0], c["ref"][1])))
+            except BaseException as e:
+                rep.violation("C15:python:exception:" + type(e).__name__, f"decode_flarm raised {type(e).__name__}: {str(e)[:200]}", replay)
+                singles.append(None)
+                continue
+            singles.append(out)
+            bad = judge(c, out, "decode_flarm")
+            if bad:
+                kind = "position" if any(b.startswith(("lat", "lon")) for b in bad) else "fields"
+                rep.violation(f"C15:python:built:{kind}", f"decode_flarm({c['packet']}, ts={c['ts']}, ref={c['ref']}): " + "; ".join(bad), replay)
+            else:
+                rep.cls("python:decode_flarm:ok")
+                rep.hashes.add(hash(("py15", c["packet"])))
+        # the vector form: the same packets in 1-6 parallel chunks must give the same records in the same order
+        for lo in range(0, len(cases), 600):
+            part = cases[lo:lo + 600]
+            k = rng.choice([1, 2, 3, 6])
+            cuts = sorted(rng.sample(range(1, len(part)), min(k - 1, max(0, len(part) - 1)))) if len(part) > 1 else []
+            groups, prev = [], 0
+            for c in cuts + [len(part)]:
+                groups.append(part[prev:c])
+                prev = c
+            rep.evaluations += 1
+            replay = {"mode": "pybinding15", "case": part[0], "vector": len(part)}
+            try:
+                out = pickle.loads(bytes(mod.decode_flarm_vec([[c["packet"] for c in g] for g in groups], [[c["ts"] for c in g] for g in groups],
+                                                              [[c["ref"][0] for c in g] for g in groups], [[c["ref"][1] for c in g] for g in groups])))
+            except BaseException as e:
+                rep.violation("C15:python:vec:exception:" + type(e).__name__, f"decode_flarm_vec raised {type(e).__name__}: {str(e)[:200]}", replay)
+                continue
+            want = [s for s in singles[lo:lo + 600] if s is not None]
+            if len(out) != len(want):
+                rep.violation("C15:python:vec:record-count", f"decode_flarm_vec returned {len(out)} records for {len(want)} decodable packets", replay)
+                continue
+            diff = next((i for i, (a, b) in enumerate(zip(out, want)) if a != b), None)
+            if diff is not None:
+                rep.violation("C15:python:vec:differs-from-single", f"record {diff} of decode_flarm_vec ({k} chunks) is {str(out[diff])[:200]}, decode_flarm gave {str(want[diff])[:200]}", replay)
+            else:
+                rep.cls(f"python:decode_flarm_vec==singles:chunks:{k}")
+    except Inconclusive as e:
+        return {"_crashed": True, "_stderr": str(e), "_cmd": ["pybind15"]}
+    except Exception:
+        import traceback
+        return {"_crashed": True, "_stderr": "checker error: " + traceback.format_exc()[-1500:], "_cmd": ["pybind15"]}
+    rep.assumptions.append("Python binding: decode_flarm and decode_flarm_vec on packets built by the independent packer/encryptor (truth inside the decodable window, not across the antimeridian); "
+                           "fields exact, position within one 128e-7 degree step; the vector form must equal the single calls in order")
+    return rep.to_dict()
+
+
+def carried(frame: bytes):
+    """(df, address) for the formats that carry the address in the clear or in the parity (independent of the decoder)"""
+    from common import crc_remainder
+    df = frame[0] >> 3
+    if len(frame) not in (7, 14):
+        return None
+    if df in (11, 17, 18):
+        return df, int.from_bytes(frame[1:4], "big")
+    if df in (0, 4, 5, 16, 20, 21):
+        return df, crc_remainder(frame)
+    return None
+
+
+def c07_worker(args):
+    """C07 through the Python binding: decode_1090(hex) serialises every accepted message with serde_pickle (a second
+    serialiser over the same serde attributes: flatten, tags, untagged enums). A message the binding cannot serialise
+    surfaces as PanicException (the binding unwraps)."""
+    shard, nshards, tier, seed, rsmon, so_path = args
+    rep = Rep("C07")
+    try:
+        mod = load_binding(so_path)
+        p = subprocess.run([rsmon, "gen07", "--tier", tier, "--seed", str(seed), "--shard", str(shard), "--nshards", str(nshards)],
+                           stdout=subprocess.PIPE, stderr=subprocess.PIPE, timeout=3600)
+        if p.returncode != 0:
+            raise Inconclusive("rsmon gen07 failed: " + p.stderr.decode(errors="replace")[-500:])
+        for line in p.stdout.split():
+            h = line.decode()
+            rep.evaluations += 1
+            replay = {"mode": "pybinding07", "frame": h}
+            try:
+                out = pickle.loads(bytes(mod.decode_1090(h)))
+            except BaseException as e:
+                rep.violation("C07:python:exception:" + type(e).__name__, f"decode_1090({h}) raised {type(e).__name__}: {str(e)[:200]}", replay)
+                continue
+            if out is None:
+                rep.cls("python:not-accepted")
+                continue
+            if not isinstance(out, dict):
+                rep.violation("C07:python:not-a-dict", f"decode_1090({h}) unpickles to {type(out).__name__}", replay)
+                continue
+            ok = True
+
+            def walk(v, path):
+                nonlocal ok
+                if isinstance(v, dict):
+                    for k, x in v.items():
+                        walk(x, path + "." + str(k))
+                elif isinstance(v, (list, tuple)):
+                    for x in v:
+                        walk(x, path)
+                elif isinstance(v, float) and not math.isfinite(v):
+                    ok = False
+                    rep.violation("C07:python:non-finite", f"decode_1090({h}): {path} = {v}", replay)
+            walk(out, "")
+            c = carried(bytes.fromhex(h))
+            if c is not None:
+                df, addr = c
+                if str(out.get("df")) != str(df) or out.get("icao24") != "%06x" % addr:
+                    # DF17/18 frames whose parity fails are not accepted at all, so an accepted one carries its address
+                    ok = False
+                    rep.violation(f"C07:python:df-icao24:DF{df}", f"decode_1090({h}) shows df={out.get('df')!r} icao24={out.get('icao24')!r}, frame is DF{df} {addr:06x}", replay)
+            if ok:
+                rep.cls("python:record-ok")
+                rep.cls("python:record-ok:df" + str(out.get("df")))
+                rep.hashes.add(hash(("py07", h)))
+    except Inconclusive as e:
+        return {"_crashed": True, "_stderr": str(e), "_cmd": ["pybind07"]}
+    except Exception:
+        import traceback
+        return {"_crashed": True, "_stderr": "checker error: " + traceback.format_exc()[-1500:], "_cmd": ["pybind07"]}
+    rep.assumptions.append("Python binding: decode_1090(hex) on frames of every shape; the pickled record must unpickle to a dict with finite numbers whose df and icao24 are "
+                           "those the frame carries; an exception (pyo3 turns a Rust panic into PanicException) is a message that is accepted but cannot be serialised")
+    return rep.to_dict()
+
+
 def replay(so_path, data):
     rep = Rep("C06")
     mod = load_binding(so_path)
